@@ -269,6 +269,37 @@ def evRowsOf : List String → List Ev
   | u :: v :: op :: t :: rest => { t := t.toInt?.getD 0, u := tokN u, v := tokN v, plus := op == "1" } :: evRowsOf rest
   | _ => []
 
+/-- node-link records: `m (n k (key val)*k)*m` -/
+def parseNodeAttrs : Nat → List String → List (Node × Attrs)
+  | 0, _ => []
+  | m + 1, n :: k :: rest =>
+    let k := tokN k
+    let body := rest.take (2 * k)
+    let attrs : Attrs := dictOf ((List.range k).map (fun i => (tokN (body.getD (2 * i) "0"), tokN (body.getD (2 * i + 1) "0"))))
+    (tokN n, attrs) :: parseNodeAttrs m (rest.drop (2 * k))
+  | _, _ => []
+
+/-- hand-written records: `m (k (key kind val)*k)*m`, kind 1 = a node id, 0 = an attribute value -/
+def parseRecords : Nat → List String → List Record
+  | 0, _ => []
+  | m + 1, k :: rest =>
+    let k := tokN k
+    let body := rest.take (3 * k)
+    let r : Record := dictOf <| (List.range k).map (fun i =>
+      (tokN (body.getD (3 * i) "0"),
+       if body.getD (3 * i + 1) "0" == "1" then RecVal.node (tokN (body.getD (3 * i + 2) "0"))
+       else RecVal.attr (tokN (body.getD (3 * i + 2) "0"))))
+    r :: parseRecords m (rest.drop (3 * k))
+  | _, _ => []
+
+def recValJ : RecVal → List J
+  | .attr v => [jn 0, jn v]
+  | .node n => [jn 1, jn n]
+
+def recordJ (r : Record) : J := .arr (r.map (fun e => .arr (jn e.1 :: recValJ e.2)))
+
+def nodeTableJ (t : List (RecVal × Record)) : J := .arr (t.map (fun e => .arr (recValJ e.1 ++ [recordJ e.2])))
+
 def alphaKey (a : Nat) : String := toString a ++ ".00"
 
 def confJ (r : Option (List (Nat × List (Node × Rat)))) : J :=
@@ -499,6 +530,14 @@ def exec (s : St) (w : List String) : St × J :=
       match g.timeRespectingPaths (tokN u) ((tokI v).map Int.toNat) (tokI a) (tokI b) with
       | .ok _ => jn 1
       | .error e => jerr e)
+  | "nlrecs" :: idKey :: m :: rest =>
+    -- the node records node_link_data writes and the node table node_link_graph rebuilds from them
+    let nodes := parseNodeAttrs (tokN m) rest
+    let recs := nodeRecords (tokN idKey) nodes
+    (s, .obj [("recs", .arr (recs.map recordJ)), ("back", nodeTableJ (importRecords (tokN idKey) recs))])
+  | "nlimp" :: idKey :: m :: rest =>
+    -- node_link_graph on hand-written records (missing ids, repeated ids)
+    (s, nodeTableJ (importRecords (tokN idKey) (parseRecords (tokN m) rest)))
   | "occrt" :: t :: name =>
     -- encode the occurrence (name, t) and a second one ("x", t), decode both as `time_respecting_paths` does
     let t := (tokI t).getD 0
